@@ -59,7 +59,9 @@ def gen_client(rng, k, cfg, focus):
     if ca in ("method", "both"):
         methods["catch_all"] = gen_handler(rng)
     bid_mode = rng.random()
-    if bid_mode < 0.7:
+    if bid_mode < 0.08:
+        bid = None          # the client picks its own id (from the seeded PRNG)
+    elif bid_mode < 0.7:
         bid = rng.randrange(0, 2 ** 31, 1)
     elif bid_mode < 0.8:
         bid = rng.choice([0, 1, 2, 3, 2 ** 31 - 1, 2 ** 31 - 2])
@@ -97,6 +99,8 @@ def gen_session(rng, focus: str, tier: str = "quick"):
     seen = set()
     for c in clients:
         b = c["run"]["beacon_id"]
+        if b is None:
+            continue
         while (b - b % 2) & 0xFFFFFFFF in seen:
             b = rng.randrange(0, 2 ** 31)
         c["run"]["beacon_id"] = b
@@ -145,7 +149,7 @@ def gen_session(rng, focus: str, tier: str = "quick"):
                     f["extra_us"] = rng.choice([1_000_000, 4_000_000, 3 * st * 1000])
                 if not any(x["client"] == f["client"] and x["request"] == f["request"] for x in faults):
                     faults.append(f)
-            if rng.random() < 0.4:
+            if rng.random() < 0.4 and c["run"]["beacon_id"] is not None:     # (a self-chosen id is not expected to survive a restart)
                 for _ in range(rng.randint(1, 3)):
                     op = {"at_us": c["start_at_us"] + rng.randint(0, ncheck * st * 1000 // 2), "client": c["k"],
                           "restart": True, "delay_us": rng.choice([1000, 500_000, st * 1000])}
@@ -160,6 +164,9 @@ def gen_session(rng, focus: str, tier: str = "quick"):
     if rng.random() < 0.5:
         for _ in range(rng.randint(1, 4)):
             noise.append(gen_noise(rng, cfg, horizon))
+        for _ in range(rng.choice([0, 1, 2])):
+            noise.append({"at_us": rng.randint(horizon // 4, max(horizon // 4 + 1, horizon)), "replay": rng.choice(["get", "post"]),
+                          "how": rng.choice(["verb", "uri"])})
     operator.sort(key=lambda o: (o["at_us"], o["client"]))
     plan = {"world": "S", "config": cfg, "clients": clients, "operator": operator, "faults": faults, "noise": noise,
             "net": {"latency_us": [200, rng.choice([1000, 90000])], "timeout_us": 5_000_000},
